@@ -514,6 +514,60 @@ async fn random_history(tr: &mut Tracer, rng: &mut Rng, h: u64, len: u64) {
     }
 }
 
+/// Credential-focused history: sessions of each credential are live (recorded or still queued) when a
+/// credential is replaced / removed / purged - including the purge that leaves no credential at all.
+async fn cred_history(tr: &mut Tracer, rng: &mut Rng, h: u64) {
+    let mut hh = start(tr, h, *rng.pick(&[900u32, 86400]), true).await;
+    let mut t = 5u64;
+    // variant: 0 = password only, 1 = password + passkey, 2 = passkey only
+    let variant = h % 3;
+    if variant >= 1 {
+        hh.exec(&json!({"a":"cred","acct":"p1","t":t,"op":"addpk"}), tr).await;
+    }
+    if variant == 2 {
+        hh.exec(&json!({"a":"cred","acct":"p1","t":t,"op":"rmpw"}), tr).await;
+    }
+    for round in 0..2 {
+        let creds: Vec<&str> = match variant { 0 => vec!["pw"], 1 => vec!["pw", "pk"], _ => vec!["pk"] };
+        for c in creds.iter() {
+            for _ in 0..rng.range(1, 2) {
+                t += rng.range(0, 3);
+                hh.exec(&json!({"a":"login","acct":"p1","t":t,"priv":false,"cred":c}), tr).await;
+                if rng.chance(4, 5) {
+                    let n = hh.w.pending.len() as u64;
+                    if n > 0 {
+                        hh.exec(&json!({"a":"apply","t":t,"i":n - 1}), tr).await;
+                    }
+                }
+            }
+        }
+        t += *rng.pick(&[1u64, 10, 299, 301]);
+        let ops: Vec<&str> = match variant {
+            0 => vec!["replace", "purgepw", "purge"],
+            1 => vec!["replace", "rmpw", "rmpk", "purgepw", "purgepk", "purge"],
+            _ => vec!["purgepk", "purge"],
+        };
+        let op = *rng.pick(&ops);
+        hh.exec(&json!({"a":"cred","acct":"p1","t":t,"op":op}), tr).await;
+        // late session records arrive after the removal
+        while !hh.w.pending.is_empty() {
+            t += 1;
+            hh.exec(&json!({"a":"apply","t":t,"i":0}), tr).await;
+        }
+        t += 301;
+        hh.exec(&json!({"a":"tick","t":t}), tr).await;
+        if round == 0 {
+            // restore the credential set of the variant for a second round
+            if variant != 2 {
+                hh.exec(&json!({"a":"cred","acct":"p1","t":t,"op":"addpw"}), tr).await;
+            }
+            if variant >= 1 {
+                hh.exec(&json!({"a":"cred","acct":"p1","t":t,"op":"addpk"}), tr).await;
+            }
+        }
+    }
+}
+
 /// OAuth2-focused history: a grant whose parent login session is then revoked / loses its credential /
 /// was never recorded, observed before and after the grace window.
 async fn o2_history(tr: &mut Tracer, rng: &mut Rng, h: u64) {
@@ -663,6 +717,10 @@ pub fn run(o: &Opts) -> i32 {
         for _ in 0..o.u64("random", 0) {
             h += 1;
             random_history(&mut tr, &mut rng, h, len).await;
+        }
+        for _ in 0..o.u64("cred", 0) {
+            h += 1;
+            cred_history(&mut tr, &mut rng, h).await;
         }
         for _ in 0..o.u64("o2", 0) {
             h += 1;
